@@ -24,12 +24,14 @@ def _snapshot():
 
 def c12_step(locked: bool, has: bool, op: int, body: int, regkind: int, v0: int, v1: int, v2: int) -> bool:
   """
-  pre: 0 <= op < 6 and 0 <= body < 6 and 0 <= regkind < 4
+  pre: 0 <= op < 6 and 0 <= body < 9 and 0 <= regkind < 4
   """
   world.fresh()
   locked, has = rt.flag(locked), rt.flag(has)
   op = rt.pick(op, 6)
-  body = rt.pick(body, 6)
+  body = rt.pick(body, 9)
+  if body in (6, 7, 8) and locked and body != 8:
+    rt.discard()            # bodies 6/7 finalize inside the block: only possible when entered unlocked
   if op != 5 and body != 0:
     rt.discard()
   regkind = rt.pick(regkind, 4)
@@ -106,6 +108,16 @@ def c12_step(locked: bool, has: bool, op: int, body: int, regkind: int, v0: int,
         elif body == 5:
           with gin.unlock_config():
             raise Boom()
+        elif body == 6:
+          gin.finalize()                 # the body locks: the ENTRY state (unlocked) is restored
+        elif body == 7:
+          gin.finalize()
+          raise Boom()
+        elif body == 8:
+          with gin.unlock_config():      # the inner block is entered unlocked and its body finalizes
+            gin.finalize()
+          if gin.config_is_locked():
+            raise AssertionError('inner unlock_config did not restore its entry state')
   except Exception as e:
     exc = e
   finally:
@@ -173,7 +185,7 @@ def c12_step(locked: bool, has: bool, op: int, body: int, regkind: int, v0: int,
   if body == 3:
     want['vw.dflt.a'] = v1
     want['vw.plain.a'] = v2
-  if body in (2, 5):
+  if body in (2, 5, 7):
     if not isinstance(exc, Boom):
       return False
   elif exc is not None:
@@ -288,8 +300,8 @@ HARNESSES = {
                'thorough': dict(split=dict(op=list(range(6)), locked=[False, True]), budget_s=300)},
         bounds='one operation from every (locked?, binding present?) state: bind, parse_config, register (a function, a class '
                'decorated in place, a class with a separately registered method through external_configurable / register), '
-               'finalize, clear_config, unlock_config with 6 body shapes (nop, bind, raise, nested, nested '
-               'raising caught, nested raising propagating); values: all ints. Inductive step: covers '
+               'finalize, clear_config, unlock_config with 9 body shapes (nop, bind, raise, nested, nested '
+               'raising caught, nested raising propagating, finalize inside, finalize then raise, nested block that finalizes); values: all ints. Inductive step: covers '
                'histories of any length over this state space.'),
     'c12_finalize': dict(
         fn='c12_finalize',
